@@ -135,11 +135,17 @@ func (S) RunTape(t *sim.Tape, st *sim.Stats, keepLog bool) *sim.Outcome {
 	var ops []Op
 	gen1 := func() Op {
 		ti := t.Choice(len(vocab), "op.type")
-		op := Op{Kind: t.Choice(3, "op.kind"), Type: ti, Val: t.Choice(32, "op.val"), Json: t.Bool("op.json")}
+		op := Op{Kind: []int{0, 1, 2, 0, 1, 2, 3}[t.Choice(7, "op.kind")], Type: ti, Val: t.Choice(32, "op.val"), Json: t.Bool("op.json")}
+		if vocab[ti].name == "Widths" && t.Pct(40, "op.outofrange") {
+			op.Kind = 4
+		}
 		if vocab[ti].cborOnly {
 			op.Json = false
+			if op.Kind == 3 {
+				op.Kind = 1 // the Go type inferred for Int is int64: these values are outside its range
+			}
 		}
-		if vocab[ti].inferable {
+		if vocab[ti].inferable && op.Kind < 3 {
 			op.Inferred = t.Bool("op.inferred")
 		}
 		return op
